@@ -15,6 +15,7 @@ const GROWTH: usize = 2;
 const PRELUDE: &str = r#"
 #[constructor(new)]
 class K { fn m(self) { return 1; } }
+var handed_on = nil;
 "#;
 
 fn kinds() -> Vec<(&'static str, &'static str)> {
@@ -39,6 +40,11 @@ fn kinds() -> Vec<(&'static str, &'static str)> {
         ("slice", "var a = [i, i, i, i][1..3];"),
         ("hash_map_items", "var a = {1: i, 2: i}.items();"),
         ("error_instance", "var a = Error.new([i]);"),
+        // a fiber run to its end by a short-lived fiber and handed on to the next round, which holds it on
+        // its own stack while it finishes
+        ("fiber_run_by_a_fiber_and_handed_on", "var a = Fiber.new(|| { var hold = handed_on; var t = Fiber.new(|| [i]); t.call(); handed_on = t; }); a.call();"),
+        // closures made at every level of a recursion; only the innermost one survives the call
+        ("closure_from_the_bottom_of_a_recursion", "fn rec(d) { var big = [d, [d]]; var c = || big; if d == 0 { return c; } return rec(d - 1); } var a = rec(i % 40);"),
     ]
 }
 
@@ -250,7 +256,34 @@ pub fn run(ctx: &Ctx) -> Report {
         }
         acc
     });
+    // what is left behind must not depend on how deep the recursion was that produced the one value kept:
+    // the same program with the escaping closure made at depth 0 / 1 / 7 / 39 of a recursion in which
+    // every level makes a closure over a local of its own
+    let mut depth_violations: Vec<(String, serde_json::Value)> = Vec::new();
+    {
+        let mut r = Runner::new(ctx.runner_opt.clone());
+        let mk = |depth: usize| format!("{}\nfn rec(d) {{ var big = [d, [d]]; var c = || big; if d == 0 {{ return c; }} return rec(d - 1); }}\nvar ring = [nil, nil, nil, nil];\nfor i in 0..200 {{ ring[i % 4] = rec({}); }}\nprint(\"done\");\n", PRELUDE, depth);
+        let mut reference: Option<BTreeMap<String, usize>> = None;
+        for depth in [0usize, 1, 7, 39] {
+            let src = mk(depth);
+            match run_prog(&mut r, &src, &["gc_then_heap"], false) {
+                Obs::Resp(resp) => {
+                    let left = non_retained(&resp.heap.clone().unwrap_or_default());
+                    match &reference {
+                        None => reference = Some(left),
+                        Some(want) => {
+                            if *want != left {
+                                depth_violations.push((format!("[objects left behind vs recursion depth] keeping the closure from the bottom of a recursion of depth {} leaves {:?}; from depth 0 it leaves {:?}", depth, left, want), json!({"family": "left_behind_vs_recursion_depth", "source": src, "left": left, "reference": want})));
+                            }
+                        }
+                    }
+                }
+                other => depth_violations.push((format!("[objects left behind vs recursion depth] run ended in {}", other.describe()), json!({"source": src}))),
+            }
+        }
+    }
     let mut acc = Acc::default();
+    acc.violations.extend(depth_violations);
     for a in accs {
         acc.programs += a.programs;
         acc.events += a.events;
@@ -271,7 +304,7 @@ pub fn run(ctx: &Ctx) -> Report {
     report.cov("traces_validated_against_impl", json!(acc.events));
     report.cov("distinct_nontrivial", json!(n_progs));
     report.cov("exhaustive", json!(true));
-    report.cov("rule", json!("every loop program `for i in 0..n { body }` whose body is a multiset of one or two (three in the thorough tier) of 20 allocation kinds, crossed with three live-set shapes (nothing kept, a ring of the last 4, a map under a rotating key), run in the optimised build: at every allocation event and every collection of the log the monitor checks (1) no allocation at or above the threshold without a collection, heap <= max(2 x survivors, 64 KiB) + that allocation; (2) threshold after a collection = 2 x survivors, a collection never grows the heap, accounting continuous between events; (3) a collection only when the threshold in effect was reached; at the end bytes_allocated = sum of live object sizes; after dropping the interpreter exactly a fresh interpreter's residue remains; n and 2n iterations leave the same live objects by type (interned strings and compiled code excluded)."));
+    report.cov("rule", json!("every loop program `for i in 0..n { body }` whose body is a multiset of one or two (three in the thorough tier) of 22 allocation kinds, crossed with three live-set shapes (nothing kept, a ring of the last 4, a map under a rotating key), run in the optimised build: at every allocation event and every collection of the log the monitor checks (1) no allocation at or above the threshold without a collection, heap <= max(2 x survivors, 64 KiB) + that allocation; (2) threshold after a collection = 2 x survivors, a collection never grows the heap, accounting continuous between events; (3) a collection only when the threshold in effect was reached; at the end bytes_allocated = sum of live object sizes; after dropping the interpreter exactly a fresh interpreter's residue remains; n and 2n iterations leave the same live objects by type (interned strings and compiled code excluded); the objects left behind by keeping the closure from the bottom of a recursion do not depend on its depth (0, 1, 7, 39)."));
     report.cov("bounds", json!({"iterations": [n1, n2], "kinds": kinds().len(), "live_set_shapes": 3}));
     report.cov("programs", json!(n_progs));
     report.cov("allocation_events_checked", json!(acc.events));
